@@ -276,6 +276,11 @@ CLAUSES = [
     ),
 ]
 
+from ..names_check import names_clause  # noqa: E402
+
+if names_clause("C05") is not None:
+    CLAUSES.append(names_clause("C05"))
+
 PROPERTY = Property(
     id="C05",
     level="exploration",
